@@ -373,7 +373,11 @@ StateVector =
         """
         from .orbit import Orbit
 
-        new_dict = self._data.copy()
+        new_dict = {
+            k: v.copy() if hasattr(v, "copy") else v
+            for k, v in self._data.items()
+            if k != "propagator"
+        }
         new_dict["propagator"] = propagator
         return Orbit(self.base, **new_dict)
 
